@@ -216,6 +216,13 @@ func scenarioC15(r *Run) {
 	}
 	cfg.Channels = []ChanCfg{{Name: "alpha", Target: "tcp://" + TargetIP + ":7001"}}
 	nst := 1 + c.Pick(3, "stallers")
+	crowd := false
+	if !CarrierIsDNS(ep) && c.Chance(1, 5, "many-stallers") {
+		crowd = true // (the whole crowd is in place before the last well-behaved client arrives)
+		// a crowd of misbehaving peers at once: limits and queues that a few stalled peers never fill
+		nst = 17 + c.Pick(16, "crowd")
+		r.Count("runs_with_a_crowd_of_stallers")
+	}
 	ngood := 1 + c.Pick(3, "good-clients")
 	r.Info["endpoint"] = ep
 	r.Info["stall_point"] = point
@@ -263,6 +270,9 @@ func scenarioC15(r *Run) {
 	started := 0
 	waited := false
 	lateArrival := []time.Duration{0, 0, 0, 90 * time.Second, 7 * time.Minute, 12 * time.Minute}[c.Pick(6, "late-arrival")]
+	if crowd {
+		lateArrival = 0 // the crowd is meant to be there, all of it, when the client arrives
+	}
 	r.Info["late_arrival"] = lateArrival.String()
 	openedAt := map[int]time.Duration{}
 	doneAt := map[int]time.Duration{}
@@ -318,7 +328,7 @@ func scenarioC15(r *Run) {
 					}
 				}})
 			}
-		} else if !(cs.nOpen == ngood-1 && started == 0) {
+		} else if !(cs.nOpen == ngood-1 && (started == 0 || (crowd && started < nst))) {
 			evs = append(evs, cs.OpenEv(func(i int) { openedAt[i] = r.SimElapsed() })...)
 		}
 		evs = append(evs, cs.PeerEvents()...)
@@ -339,10 +349,13 @@ func scenarioC15(r *Run) {
 		return all
 	}
 	out := r.Drive(pol, goal, extra, 90*time.Second, 35*time.Minute)
+	r.Info["drive_outcome"] = out.String()
 	if out == Aborted {
 		return
 	}
 	sig := fmt.Sprintf("endpoint=%s", ep)
+	var maxLat time.Duration
+	defer func() { r.Info["slowest_good_client"] = maxLat.String() }()
 	for _, lc := range conns {
 		if !lc.Opened {
 			continue
@@ -353,9 +366,20 @@ func scenarioC15(r *Run) {
 			return
 		}
 		lat := d - openedAt[lc.I]
-		if lat > 60*time.Second {
-			r.FailSig("delayed", sig, "well-behaved client %d needed %v (bound 60 s simulated) while %d peer(s) stalled at %q (%s) on the %s endpoint", lc.I, lat, started, point, behaviour, ep)
+		// The bound separates "served at its own pace" from "served when a stalled peer's time-out
+		// expires": the server gives a silent peer HandshakeTimeout (30 s), so a well-behaved client that
+		// needs 20 s or more has been waiting for somebody else. The DNS tunnel's own handshake (query-type
+		// and codec detection with 1-3 s retries) is slower: 60 s there.
+		bound := 20 * time.Second
+		if CarrierIsDNS(ep) {
+			bound = 60 * time.Second
+		}
+		if lat > bound {
+			r.FailSig("delayed", sig, "well-behaved client %d needed %v (bound %v simulated) while %d peer(s) stalled at %q (%s) on the %s endpoint", lc.I, lat, bound, started, point, behaviour, ep)
 			return
+		}
+		if lat > maxLat {
+			maxLat = lat
 		}
 	}
 	if out == GoalMet {
